@@ -110,6 +110,42 @@ class Scenario:
         return ()
 
 
+class MultiScenario(Scenario):
+    """Several workloads for one property: the run seed picks one; everything else is delegated."""
+
+    def __init__(self, prop, parts):
+        self.prop = prop
+        self.parts = parts            # [(weight, scenario)]
+        self.name = "+".join(p.name for _, p in parts)
+
+    def header(self, seed, avoid):
+        rng = stream(seed, "multi")
+        i = rng.choices(range(len(self.parts)), [w for w, _ in self.parts])[0]
+        h = self.parts[i][1].header(seed, avoid)
+        return {"which": i, "h": h, "max_ops": h.get("max_ops", self.parts[i][1].max_ops)}
+
+    def _p(self, header):
+        return self.parts[header["which"]][1]
+
+    def start(self, header, world, rec):
+        st = self._p(header).start(header["h"], world, rec)
+        st._multi = header["which"]
+        return st
+
+    def gen_op(self, state, rng):
+        return self.parts[state._multi][1].gen_op(state, rng)
+
+    def apply(self, state, op, rec):
+        return self.parts[state._multi][1].apply(state, op, rec)
+
+    def finish(self, state, rec):
+        return self.parts[state._multi][1].finish(state, rec)
+
+    def shrink_header(self, header, ops):
+        for h2, o2 in self._p(header).shrink_header(header["h"], ops):
+            yield dict(header, h=h2), o2
+
+
 class Outcome:
     __slots__ = ("seed", "header", "ops", "violation", "known_hit", "harness_error", "fingerprint",
                  "probes", "kinds", "fired", "steps", "relevant", "checks", "events", "draws", "journal_len")
